@@ -351,6 +351,10 @@ func (t *Tree) WalkDeleted(path []string, condition func(interface{}) bool, f fu
 	// to the entire Tree.
 	defer t.mu.Unlock()
 	t.mu.Lock()
+	if t.leafBranch == nil {
+		// An empty Tree holds nothing to delete.
+		return
+	}
 	if delBr, _ := t.internalDelete(path, condition, f, false); delBr {
 		t.leafBranch = nil
 	}
@@ -387,6 +391,11 @@ func (t *Tree) internalDelete(subpath []string, condition func(interface{}) bool
 			}
 			return len(t.leafBranch.(branch)) == 0, allLeaves
 		default:
+			if len(subpath) != 0 {
+				// The glob matched this leaf's position but the subpath continues
+				// below it, so nothing matches (consistent with Query).
+				return false, nil
+			}
 			if condition(t.leafBranch) {
 				// The second parameter is an empty path that will be filled as recursion
 				// unwinds for this leaf that will be deleted in its parent.
@@ -436,6 +445,10 @@ func (t *Tree) DeleteConditional(subpath []string, condition func(interface{}) b
 	// to the entire Tree.
 	defer t.mu.Unlock()
 	t.mu.Lock()
+	if t.leafBranch == nil {
+		// An empty Tree holds nothing to delete.
+		return nil
+	}
 	delBr, leaves := t.internalDelete(subpath, condition, func(interface{}) {}, true)
 	if delBr {
 		t.leafBranch = nil
